@@ -690,7 +690,21 @@ func runC08Race(ops []string) CaseResult { return runC08Child(ops, true) }
 
 // runC08Free runs the same free-running workload without the race detector (an order of magnitude more interleavings
 // per second): only the semantic oracles apply (every hit = chain answer, own writes found after Commit, final sweep).
-func runC08Free(ops []string) CaseResult { return runC08Child(ops, false) }
+func runC08Free(ops []string) CaseResult {
+	if len(ops) > 0 && strings.HasPrefix(ops[0], "txnsched ") {
+		res := CaseResult{}
+		for _, op := range ops {
+			res.Outs = append(res.Outs, runTxnSched(op, &res))
+		}
+		for _, t := range res.Tags {
+			if t == "reader-during-txn-commit" {
+				res.Nontrivial = true
+			}
+		}
+		return res
+	}
+	return runC08Child(ops, false)
+}
 
 func runC08Child(ops []string, needRace bool) CaseResult {
 	res := CaseResult{}
@@ -799,6 +813,13 @@ func c08RaceChild(args []string) {
 	var hits, misses, runs, commits, ownChecks int64
 	for run := 0; time.Now().Before(deadline); run++ {
 		runs++
+		if run%3 == 1 {
+			// widen every window around a clone site (setValue / commit clone under the locks)
+			slow := func(*bval) { runtime.Gosched() }
+			bvalOnClone.Store(&slow)
+		} else {
+			bvalOnClone.Store(nil)
+		}
 		sc := statecache.NewStateCache()
 		st := &c08rStore{blocks: map[string]*c08rBlock{}, done: map[string]bool{}, handles: map[string]*c08rHandles{}}
 		// genesis
@@ -855,7 +876,45 @@ func c08RaceChild(args []string) {
 							bc.Set(key, &bval{b: unhx(val)})
 						}
 					}
+					if r.Intn(3) == 0 {
+						// a wide transaction: every remaining key, so that its Commit applies several writes one after the other
+						for k := 0; k < nKeys; k++ {
+							key := fmt.Sprintf("k%d", k)
+							if _, dup := blk.writes[key]; !dup {
+								val := fmt.Sprintf("%02x%04x%02x", c, n&0xffff, 0x80+k)
+								blk.writes[key] = val
+								tc.Set(key, &bval{b: unhx(val)})
+							}
+						}
+					}
+					// the transaction's own reader runs concurrently with its Commit: a key the context wrote is answered with
+					// the written value at any time — never with an ancestor's older value, never with a miss
+					txnDone := make(chan struct{})
+					rdDone := make(chan struct{})
+					go func() {
+						defer close(rdDone)
+						for last := false; ; {
+							for k, v := range blk.writes {
+								got, ok := tc.Get(k)
+								if !ok {
+									fail("transaction of block %s: its own lookup of %s, written before, missed while its Commit ran", hash, k)
+								} else if scValTok(got) != v {
+									fail("transaction of block %s: its own lookup of %s returned %s while its Commit ran, want its own write %s", hash, k, scValTok(got), v)
+								}
+							}
+							if last {
+								return
+							}
+							select {
+							case <-txnDone:
+								last = true
+							default:
+							}
+						}
+					}()
 					tc.Commit()
+					close(txnDone)
+					<-rdDone
 					// the block's content and parent are fixed from here on: register before the commit begins
 					st.mu.Lock()
 					st.blocks[hash] = blk
@@ -1072,7 +1131,7 @@ func init() {
 	})
 	register(&Suite{
 		Name: "c08free",
-		Rule: "the free-running workload of c08race in a child process WITHOUT the race detector (many more interleavings per second; mostly 4..8 committers racing to create the version maps of fresh keys): semantic oracles only — every hit equals the chain answer, a block's own writes are found after its Commit returned, full sweep at the end; non-trivial = child completed",
+		Rule: "the free-running workload of c08race in a child process WITHOUT the race detector (many more interleavings per second; mostly 4..8 committers racing to create the version maps of fresh keys): semantic oracles only — every hit equals the chain answer, a block's own writes are found after its Commit returned, full sweep at the end; the transaction's own reader runs during every TransactionCache.Commit (own writes at any time); every third run yields at every Clone. PLUS deterministic schedules without a repository hook (op txnsched): every Clone of a harness value by a scheduled goroutine is a yield point, blocked threads are recognised from their wait state; a transaction commit into its block with lookups through the same transaction / the block cache / the state cache at that block, all schedules up to a budget; non-trivial = child completed or a reader ran during the commit",
 		Gen: func(r *rand.Rand, tier string, idx int) []string {
 			ms := 300
 			if tier == "thorough" {
@@ -1081,6 +1140,7 @@ func init() {
 			return []string{fmt.Sprintf("race %d %d %d %d %d %d", r.Intn(1<<30), []int{8, 4, 8, 6}[idx%4], []int{2, 4, 8, 1}[idx%4], 40+r.Intn(110), 2+r.Intn(6), ms)}
 		},
 		Run:         runC08Free,
+		Exhaustive:  exhC08Txn,
 		Serial:      true,
 		CaseTimeout: 120 * time.Second,
 		DefaultN: func(tier string) int {
